@@ -393,6 +393,8 @@ func propC06(c *Check) {
 	c.Rule("R3", "append-only heights: a batch must start at tip+1, hashes are stored at consecutive heights, the tip becomes the last height; BlockHashes/BlockTip have no other runtime writer and no Remove")
 	c.Rule("R4", "verification: in NewEthBlock it precedes the processing of the payload's own requests; extra-data length and count guards; expected txs come from the same two dequeue functions in the same order as Dequeue; each compared byte-for-byte; the count reaches zero")
 	c.Rule("R5", "queue writers: other writers of the queues only append at the tail")
+	c.Rule("R6", "matured unlocks enter the hand-over queue in maturity order, each exactly once: the sweep collects every entry it visits, in walk order, removes it and appends the collected unlocks at the tail (C15/R2)")
+	c.Depend("R6", "C15", propC15, map[string]bool{"R2": true}, "an entry skipped while the walk goes on is overtaken by later-matured unlocks (first-in-first-out within the kind) or stranded")
 
 	cg := p.CG()
 	bd := p.MustFn("x/bitcoin/keeper.Keeper.DequeueBitcoinModuleTx")
@@ -541,7 +543,12 @@ func propC06(c *Check) {
 	i := "φ{(1 + @)|0}"
 	c.RequireFact(vdq, "R4", "all-btc-visited", lit("(len("+btc+") <= "+i+")"), nil, "")
 	c.RequireFact(vdq, "R4", "all-locking-visited", lit("(len("+lck+") <= "+i+")"), nil, "")
-	// each iteration's count decrement is reached only through the byte-equality edge
+	// every compared element passes the byte-equality edge before the loop moves on (the loop may live in a helper
+	// that is handed the list and the slice to compare with)
+	c.eachIterationEstablishes(vdq, "R4", "btc-bytes-equal", "(len("+btc+") <= "+i+")", lit("bytes.Equal(Transaction.MarshalBinary("+btc+"["+i+"])#0, $3["+i+"])"))
+	c.eachIterationEstablishes(vdq, "R4", "locking-bytes-equal", "(len("+lck+") <= "+i+")", lit("bytes.Equal(Transaction.MarshalBinary("+lck+"["+i+"])#0, $3[len("+btc+"):]["+i+"])"))
+	// the declared count equals the number of due txs: counted down once per compared element to zero, or compared
+	// with the sum of the two list lengths
 	var decs []ssa.Instruction
 	for _, b := range vdq.Blocks {
 		for _, in := range b.Instrs {
@@ -551,13 +558,25 @@ func propC06(c *Check) {
 		}
 	}
 	sort.Slice(decs, func(a, b int) bool { return decs[a].Pos() < decs[b].Pos() })
-	if len(decs) != 2 {
-		c.Violated("R4", "count-decrements @ "+FuncKey(vdq), p.Pos(vdq.Pos()), fmt.Sprintf("%d count decrements (want one per compared list) reason=not-established", len(decs)))
-	} else {
-		c.RequireFact(vdq, "R4", "btc-bytes-equal", lit("bytes.Equal(Transaction.MarshalBinary("+btc+"["+i+"])#0, $3["+i+"])"), instrSet(decs[:1]), "next bridge tx")
-		c.RequireFact(vdq, "R4", "locking-bytes-equal", lit("bytes.Equal(Transaction.MarshalBinary("+lck+"["+i+"])#0, $3[len("+btc+"):]["+i+"])"), instrSet(decs[1:]), "next locking tx")
+	sum := `\(\$2\[0\] == \(len\(` + regexp.QuoteMeta(btc) + `\) \+ len\(` + regexp.QuoteMeta(lck) + `\)\)\)|\(\(len\(` + regexp.QuoteMeta(btc) + `\) \+ len\(` + regexp.QuoteMeta(lck) + `\)\) == \$2\[0\]\)|\(\$2\[0\] == \(len\(` + regexp.QuoteMeta(lck) + `\) \+ len\(` + regexp.QuoteMeta(btc) + `\)\)\)|\(\(len\(` + regexp.QuoteMeta(lck) + `\) \+ len\(` + regexp.QuoteMeta(btc) + `\)\) == \$2\[0\]\)`
+	switch {
+	case len(decs) == 2:
+		okD := true
+		for k, d := range decs {
+			if skip, path := loopIterationCanSkip(vdq, d); skip {
+				okD = false
+				c.Violated("R4", fmt.Sprintf("count-decrement#%d-every-iteration @ %s", k, FuncKey(vdq)), p.InstrPos(d), "a compared element is not counted", p.describePath(path)...)
+			}
+		}
+		if okD {
+			c.Held("R4", "count-decrements @ "+FuncKey(vdq), p.InstrPos(decs[0]), "one decrement per compared element of each list")
+		}
+		c.RequireFact(vdq, "R4", "count-reaches-zero", lit(EQ("0", "φ{$2[0]|(@ - 1)}")), nil, "")
+	case len(p.MatchEdges(vdq, regexp.MustCompile("^("+sum+")$"))) > 0:
+		c.RequireFact(vdq, "R4", "count-equals-due", "^("+sum+")$", nil, "")
+	default:
+		c.Violated("R4", "count-decrements @ "+FuncKey(vdq), p.Pos(vdq.Pos()), fmt.Sprintf("%d count decrements and no comparison of the declared count with the number of due txs reason=not-established", len(decs)))
 	}
-	c.RequireFact(vdq, "R4", "count-reaches-zero", lit(EQ("0", "φ{$2[0]|(@ - 1)}")), nil, "")
 	// order agreement with Dequeue: bitcoin first, then locking, in both
 	for _, f := range []*ssa.Function{dq, vdq} {
 		b := p.FindCalls(f, `^BitcoinKeeper\.DequeueBitcoinModuleTx\(`)
@@ -656,4 +675,81 @@ func intNonNegative(v ssa.Value) bool {
 		}
 	}
 	return false
+}
+
+
+// eachIterationEstablishes: the loop whose exit edge carries exitFact — in fn itself or in a transparent helper fn
+// calls, seen with its parameters bound to the arguments of that call — takes an edge matching bodyPattern on every
+// path from the loop body back to the loop header.
+func (c *Check) eachIterationEstablishes(fn *ssa.Function, rule, name, exitFact, bodyPattern string) {
+	p := c.p
+	re := regexp.MustCompile(bodyPattern)
+	ctxs := []fctx{{fn: fn, r: p.R(fn)}}
+	for _, ci := range callsIn(fn) {
+		g := ci.Common().StaticCallee()
+		if g == nil || !p.transparentHelper(g) {
+			continue
+		}
+		r := p.R(fn)
+		bind := make([]string, len(ci.Common().Args))
+		for i, a := range ci.Common().Args {
+			bind[i] = r.E(a)
+		}
+		ctxs = append(ctxs, fctx{fn: g, r: p.RBound(g, bind, 1), call: ci, parent: fn})
+	}
+	construct := name + " @ " + FuncKey(fn)
+	for _, x := range ctxs {
+		facts := p.edgeFactsWith(x.fn, x.r)
+		for _, ef := range facts {
+			if ef.Fact != exitFact || ef.Pred != nil {
+				continue
+			}
+			c.touch(x.fn)
+			H := ef.Block
+			avoid := map[edgeKey]bool{{b: H, i: ef.Idx}: true}
+			for _, bf := range facts {
+				if bf.Pred == nil && bf.Fact != infeasible && re.MatchString(bf.Fact) {
+					avoid[edgeKey{b: bf.Block, i: bf.Idx}] = true
+				}
+			}
+			// block search from the body back to the header
+			seen := map[*ssa.BasicBlock]bool{}
+			var path []*ssa.BasicBlock
+			var walk func(b *ssa.BasicBlock) bool
+			walk = func(b *ssa.BasicBlock) bool {
+				if b == H {
+					path = append(path, b)
+					return true
+				}
+				if seen[b] {
+					return false
+				}
+				seen[b] = true
+				for i, s := range b.Succs {
+					if avoid[edgeKey{b: b, i: i}] {
+						continue
+					}
+					if walk(s) {
+						path = append(path, b)
+						return true
+					}
+				}
+				return false
+			}
+			where := ""
+			if x.call != nil {
+				where = " (in helper " + FuncKey(x.fn) + ")"
+			}
+			if walk(H.Succs[1-ef.Idx]) {
+				for l, r := 0, len(path)-1; l < r; l, r = l+1, r-1 {
+					path[l], path[r] = path[r], path[l]
+				}
+				c.Violated(rule, construct, p.InstrPos(H.Instrs[len(H.Instrs)-1]), "an iteration can go on to the next element without establishing /"+bodyPattern+"/"+where, p.describePath(path)...)
+			} else {
+				c.Held(rule, construct, p.InstrPos(H.Instrs[len(H.Instrs)-1]), "every iteration passes the fact before the next one"+where)
+			}
+			return
+		}
+	}
+	c.Violated(rule, construct, p.Pos(fn.Pos()), "no loop with exit condition "+exitFact+" found reason=not-established")
 }
